@@ -61,3 +61,32 @@ func (w *VerifWindow) ArrayID() uintptr {
 	}
 	return reflect.ValueOf(w.sw.buf[:1]).Pointer()
 }
+
+// VerifTrim drives one trimLastFourBytesWriter (compress.go) with arbitrary chunks and records what it hands downstream.
+type VerifTrim struct {
+	tw     *trimLastFourBytesWriter
+	writes [][]byte
+}
+
+// VerifTrimNew returns a trim writer over a recording sink.
+func VerifTrimNew() *VerifTrim {
+	t := &VerifTrim{}
+	t.tw = &trimLastFourBytesWriter{w: verifWriterFunc(func(p []byte) (int, error) {
+		t.writes = append(t.writes, append([]byte(nil), p...))
+		return len(p), nil
+	})}
+	return t
+}
+
+type verifWriterFunc func(p []byte) (int, error)
+
+func (f verifWriterFunc) Write(p []byte) (int, error) { return f(p) }
+
+// Write is trimLastFourBytesWriter.Write.
+func (t *VerifTrim) Write(p []byte) (int, error) { return t.tw.Write(p) }
+
+// TakeWrites returns (and forgets) the downstream writes since the last call.
+func (t *VerifTrim) TakeWrites() [][]byte { w := t.writes; t.writes = nil; return w }
+
+// Tail returns a copy of the withheld bytes.
+func (t *VerifTrim) Tail() []byte { return append([]byte(nil), t.tw.tail...) }
